@@ -27,6 +27,18 @@ func vT_tell(pid *PID, ctx context.Context, to *PID, message any) error {
 	return nil
 }
 
+// substituted for (*PID).Equals (case-insensitive comparison of the two IDs, strings.EqualFold): exact comparison of the
+// IDs. The harness IDs are distinct lower-case constants, so both agree on them.
+func vT_equals(pid *PID, to *PID) bool {
+	if pid == nil && to == nil {
+		return true
+	}
+	if pid == nil || to == nil {
+		return false
+	}
+	return pid.ID() == to.ID()
+}
+
 func vT_newSystem() *actorSystem {
 	sys := &actorSystem{actors: newTree(), remoteWatches: newRemoteWatchRegistry(), logger: log.DiscardLogger}
 	sys.noSender = vT_mkPID(sys, "nosender")
